@@ -625,6 +625,15 @@ func (c *linkerContext) generateChunksInParallel(additionalFiles []graph.OutputF
 	c.enforceNoCyclicChunkImports()
 	generateWaitGroup.Wait()
 
+	// If a chunk generator panicked, the panic was recovered and logged as an
+	// error but that chunk is incomplete (it has no output and no hash). Stop
+	// now instead of crashing below when the missing hash is used.
+	for chunkIndex := range c.chunks {
+		if c.chunks[chunkIndex].waitForIsolatedHash == nil {
+			return nil
+		}
+	}
+
 	// Compute the final hashes of each chunk, then use those to create the final
 	// paths of each chunk. This can technically be done in parallel but it
 	// probably doesn't matter so much because we're not hashing that much data.
